@@ -218,6 +218,19 @@ fn export(out: &mut Out, name: &str, corpus_dir: &str) {
     out.emit(&json!({ "ev": "desc", "field": "sp_observed", "value": sc(&sp) }));
     out.emit(&json!({ "ev": "desc", "field": "addr_width", "value": widths.iter().collect::<Vec<_>>() }));
 
+    // the owned copy of the descriptor (Architecture::box_clone) publishes the same
+    {
+        let b = a.box_clone();
+        let bend = match b.endian() {
+            falcon::architecture::Endian::Big => "big",
+            falcon::architecture::Endian::Little => "little",
+        };
+        out.emit(&json!({ "ev": "desc", "field": "name", "value": b.name(), "via": "box_clone" }));
+        out.emit(&json!({ "ev": "desc", "field": "endian", "value": bend, "via": "box_clone" }));
+        out.emit(&json!({ "ev": "desc", "field": "word", "value": b.word_size(), "via": "box_clone" }));
+        out.emit(&json!({ "ev": "desc", "field": "sp", "value": sc(&b.stack_pointer()), "via": "box_clone" }));
+    }
+
     // the calling convention, field by field
     out.emit(&json!({ "ev": "ccfield", "field": "args", "value": args }));
     out.emit(&json!({ "ev": "ccfield", "field": "ret", "value": sc(cc.return_register()) }));
